@@ -24,7 +24,8 @@ REGISTRY = []
 
 class Loop(object):
     def __init__(self, vars=None, inv=None, variant=None, heap=None, ghost=None, elem=None,
-                 done_name="done", note=None, hint=None, tail=None, min_decrease=1):
+                 done_name="done", note=None, hint=None, tail=None, min_decrease=1, open_dicts=()):
+        self.open_dicts = tuple(open_dicts)
         self.hint = hint
         self.tail = tail
         self.min_decrease = min_decrease
@@ -59,6 +60,7 @@ class Contract(object):
         self.at_calls = d.get("at_calls", False)
         self.raises = d.get("raises", ())
         self.regions = d.get("regions", {})       # finding id -> spec function (masked region)
+        self.setup_spec = d.get("setup_spec")     # spec function run after inputs are built (ghost snapshots)
         self.setup = d.get("setup")               # python-level hook(ctx, ns) run before the call
         self.receiver = d.get("receiver")
         self.kwargs_call = d.get("kwargs_call", False)
@@ -70,6 +72,7 @@ class Contract(object):
         self.bounded = d.get("bounded")           # text if this is a bounded stand-in, else None
         self.accepts = d.get("accepts")           # python-level predicate(ctx, ns): typed case selector at call sites
         self.pre_hints = d.get("pre_hints")       # {callee name: spec fn} proof hints run before proving pre@callee
+        self.open_dicts = d.get("open_dicts", ())  # objects whose named (non-field) dict entries are havoc'd at calls
         self.effect = d.get("effect")             # python-level hook(ctx, ns) -> result, replaces `returns`
         self.proof = d.get("proof", "symbolic")   # 'symbolic' | 'table' (discharged by a @table obligation)
         self.pure = d.get("pure")                 # 'str'|'bytes'|'int': result is a function of the arguments
